@@ -208,8 +208,9 @@ End ==
 \* BufBound (3 chunks + the largest look-ahead, here the longest item) and the peak heap depends on the
 \* chunk size and the longest item only - not on the number of bytes or items processed
 \* expectErr: the stream is well-formed up to a final item that must be rejected
-StreamOk(res, expectErr, nitems, expected, chunk, maxItem, peak, maxBufLen, maxBufCap) ==
+StreamOk(res, expectErr, nitems, expected, chunk, maxItem, peak, maxBufLen, maxBufCap, maxReadsPerRefill) ==
   /\ res = (IF expectErr THEN "err" ELSE "ok") /\ nitems >= expected
+  /\ maxReadsPerRefill <= 1                    \* C09: exactly one successful read per refill, whatever the chunk size
   \* generous constants (the present code needs 3 chunks + the item, and a third of the heap bound): what matters is
   \* that nothing here grows with the number of bytes or items processed
   /\ maxBufLen <= 8 * chunk + 4 * maxItem + 4096
